@@ -7,7 +7,7 @@
    0/1 cost (an edge into a hidden sub-target of the same rule is free); dwithin / rwithin = "visible and on a
    path of cost <= lim" resp. "reported for a target on a reverse path of cost 1..lim" (lim = -1: no limit). *)
 From Coq Require Import Permutation Lia.
-From PlzV Require Import Base.Harness Model.C23 Proof.C23_Spec Proof.C23.
+From PlzV Require Import Base.Harness Model.C23 Proof.C23_Spec Proof.C23 Proof.C23_Gen.
 
 (* `plz query somepath`: a path is printed iff one exists, and it is a real chain between the two ends
    (with and without --hidden) *)
